@@ -4,6 +4,7 @@
 From Coq Require Import ZArith NArith List String.
 From LV Require Import Base.Conc Base.Events Base.Lin Spec.Specs Model.Feldman Proofs.FeldmanStepInv Proofs.FeldmanStepSafe Proofs.FeldmanStepThm.
 From LV Require Import Model.SplitList Proofs.SplitListInv Proofs.PartitionLin Proofs.FeldmanLinInv Proofs.FeldmanLinSafe.
+From LV Require Model.MichaelList Model.Product Model.MichaelSet Proofs.MichaelListProofs Proofs.MichaelSetProofs.
 Import ListNotations.
 
 (** [data_at g a i p]: item p sits in slot i of array node a, reachable from the head array (a slot in the "converting"
@@ -210,6 +211,52 @@ Proof.
   cbv zeta. split; [cbn; repeat split; auto; discriminate|]. split; [|split; reflexivity].
   intros [|[|b]]; unfold lp_valid; vm_compute; eexists; reflexivity.
 Qed.
+
+(** * Part 4: MichaelHashSet<HP, MichaelList> = product of C13's Michael-list models (LV.Model.MichaelSet) *)
+
+(** For every number of buckets > 0, every hash table, every client program (operation codes of the list model: insert,
+    insert with functor, update, erase, erase with functor, unlink, extract, get, contains, find) and EVERY schedule of the
+    product model: the history of every bucket - the operations whose key hashes to that bucket, with their TRUE invocation
+    and response instants inside the interleaved execution of all buckets ([Product.projb b] of the product trace) - is the
+    history of an LP-annotated trace valid for the sequential set, hence linearizable.  Obtained by lifting C13's
+    per-operation invariant lemma through the generic product rule (Proofs/ProductProofs.v), not from C13's end theorem
+    (whose traces would place an invocation right after the thread's previous response in the same bucket). *)
+Theorem C14_michaelset_bucket_linearizable :
+  forall (nb : nat) (hs : list Z), 0 < nb ->
+  forall (fuel sf : nat) (ic : bool) (ths : list (list (list Z))) c,
+    Conc.reach (MichaelSet.init_cfgP nb hs fuel sf ic ths) c ->
+    forall b, b < nb ->
+      (exists atr, lp_valid SetSpec atr /\ erase atr = MichaelListProofs.full_hist (Product.projb b (Conc.trace c))) /\
+      linearizable SetSpec (MichaelListProofs.full_hist (Product.projb b (Conc.trace c))).
+Proof.
+  intros nb hs Hnb fuel sf ic ths c Hr b Hb. split.
+  - exact (MichaelSetProofs.michaelset_bucket_linearizable_lp nb hs Hnb fuel sf ic ths c Hr b Hb).
+  - exact (MichaelSetProofs.michaelset_bucket_linearizable nb hs Hnb fuel sf ic ths c Hr b Hb).
+Qed.
+Print Assumptions C14_michaelset_bucket_linearizable.
+
+(** the composed statement: NOT proved.  [untagP] forgets the bucket tags; the history of the whole set is C13's history
+    function applied to the untagged product trace.  Available: every bucket's history is LP-valid (above) and LP-valid
+    bucket projections of a per-thread sequential annotated trace make the whole trace LP-valid ([C14_partition_linearizable_lp]).
+    Missing glue: (a) the product trace is per-thread sequential across buckets and its history projects bucket-wise onto
+    [full_hist (projb b ..)] (needs a syntactic "one invoke, then one response" lemma for MichaelList.run_op and the
+    commutation of C13's history fold - which deletes the invocation of a failed unlink - with the projection), (b) weaving
+    the per-bucket annotated traces into one annotated trace of the whole history. *)
+Definition untagP (tr : list (nat * (nat * ev))) : list (nat * ev) := map (fun x => (fst x, snd (snd x))) tr.
+Definition michaelset_linearizable_statement : Prop :=
+  forall (nb : nat) (hs : list Z), 0 < nb ->
+  forall (fuel sf : nat) (ic : bool) (ths : list (list (list Z))) c,
+    Conc.reach (MichaelSet.init_cfgP nb hs fuel sf ic ths) c ->
+    linearizable SetSpec (MichaelListProofs.full_hist (untagP (Conc.trace c))).
+
+(** non-vacuity: a 2-bucket run in which two threads insert into different buckets and then look up each other's key *)
+Example C14_michaelset_nonvacuous :
+  let c := fst (Conc.run 4000 0 [0;1;0;1;1;0;0;1]%nat
+                 (MichaelSet.init_cfgP 2 [0;1;2;3]%Z 60 60 false [[[1;0;0;0]; [9;1;0;0]]; [[1;1;0;0]; [9;0;0;0]]]%Z)) in
+  List.length (MichaelListProofs.full_hist (Product.projb 0 (Conc.trace c))) = 4 /\
+  List.length (MichaelListProofs.full_hist (Product.projb 1 (Conc.trace c))) = 4 /\
+  lincheck SetSpec (MichaelListProofs.full_hist (untagP (Conc.trace c))) = true.
+Proof. vm_compute. repeat split. Qed.
 
 (** history-level locality (Herlihy-Wing) and the composed statement for MichaelHashSet: NOT proved.  What is proved is
     the LP-level composition above, which is the form in which C13 delivers its result ([lp_valid] traces of the list
